@@ -237,6 +237,18 @@ def restrictedCollect (names : List Name) (s : State) : Collected :=
   { families := ti ++ collectors.flatMap (fun o => o.families.filterMap (restrictedMetric names))
     calls := collectors }
 
+/-- a `RestrictedRegistry` object: the name set and a *reference* to the registry — it holds no registry data of its
+own, the names are resolved against the registry at every `collect()` -/
+structure RestrictedRegistry where
+  nameSet : List Name
+deriving DecidableEq, Repr
+
+/-- `registry.restricted_registry(names)` -/
+def restrictedRegistry (names : List Name) : RestrictedRegistry := ⟨names⟩
+
+/-- `RestrictedRegistry.collect()` when the registry it refers to is in state `s` NOW (whenever the object was made) -/
+def RestrictedRegistry.collect (r : RestrictedRegistry) (s : State) : Collected := restrictedCollect r.nameSet s
+
 /-! ### histories -/
 
 inductive Op
